@@ -1,7 +1,4 @@
 package main
 
-func (h *harness) stagePrecompiles() {}
-func (h *harness) stageStrings()     {}
-func (h *harness) stageAnte()        {}
-func (h *harness) stageModel()       {}
-func (h *harness) replayKnown()      {}
+func (h *harness) stageModel()  {}
+func (h *harness) replayKnown() {}
